@@ -9,13 +9,15 @@ RULE = (
     "After every step the ETag of every member of the touched collections is collected from the PUT answer, GET, HEAD, PROPFIND getetag, "
     "calendar-/addressbook-multiget, calendar-/addressbook-query and sync-collection(empty token) and must be one value; over the whole history the maps "
     "ETag->served bytes and served bytes->ETag must both be functions per path. Non-trivial program: >=1 same-bytes overwrite, >=1 different-bytes overwrite, "
-    ">=1 write to another resource between two observations of a member, and all seven views observed; distinct by program hash."
+    ">=1 write to another resource between two observations of a member, and all seven views observed; distinct by program hash. "
+    "RACE steps: a GET / multiget through the aiohttp front end is suspended where the handler hands the body read to a worker thread, a complete PUT of the same member runs, and the read "
+    "resumes; the (ETag, body) pair received must be old/old or new/new."
 )
 
 
 def strategy():
     return gen_prog.program(
-        weights={"PUT": 14, "PUT-invalid": 1, "POST": 1, "DELETE": 2, "DELETE-coll": 0, "MKCOL": 1, "PROPPATCH": 3, "GET": 1, "PROPFIND": 1, "REPORT": 1, "RECREATE": 1, "RESTART": 3},
+        weights={"PUT": 14, "PUT-invalid": 1, "POST": 1, "DELETE": 2, "DELETE-coll": 0, "MKCOL": 1, "PROPPATCH": 3, "GET": 1, "PROPFIND": 1, "REPORT": 1, "RECREATE": 1, "RACE": 3, "RESTART": 3},
         min_steps=8,
         max_steps=22,
         cond_rate=0,
